@@ -38,6 +38,7 @@ TNext ==
         \/ /\ e.a = "obs" /\ IntNext /\ l' = l
         \/ /\ e.a = "finish" /\ Finish(e.i, e.o) /\ l' = l + 1
         \/ /\ e.a = "cancel" /\ ParentCancel /\ l' = l + 1
+        \/ /\ e.a = "done" /\ CbDone(e.i) /\ l' = l + 1
 
 Accepted == l = Len(T.steps) + 1
 EmitAccepted == Accepted => PrintT(ToJson([acc |-> T.id]))
